@@ -10,7 +10,10 @@ THEOREMS = ['Tbox.C01.C01_exactly_once', 'Tbox.C01.C01_executed_at_most_once', '
             'Tbox.C01.C01_loop_thread', 'Tbox.C01.C01_no_lost_wakeup', 'Tbox.C01.C01_no_lost_wakeup_counterexample',
             'Tbox.C01.C01_drained_on_exit', 'Tbox.C01.C01_pending_at_exit_run', 'Tbox.C01.C01_lock_discipline',
             'Tbox.C01.C01_loop_thread_only', 'Tbox.C01.C01_not_dropped', 'Tbox.C01.C01_fifo_pending',
-            'Tbox.C01.C01_wakeup_served', 'Tbox.C01.C01_witness_repaired', 'Tbox.C01.exec_inv', 'Tbox.C01.exec_wake']
+            'Tbox.C01.C01_wakeup_served', 'Tbox.C01.C01_witness_repaired', 'Tbox.C01.C01_ids_are_code_ids',
+            'Tbox.C01.C01_drain_batch_not_cancellable', 'Tbox.C01.C01_exit_timer', 'Tbox.C01.C01_exit_timer_internal_task',
+            'Tbox.C01.C01_throw_keeps_batch', 'Tbox.C01.C01_throw_drops_batch_counterexample', 'Tbox.C01.C01_throw_witness_repaired',
+            'Tbox.C01.exec_inv', 'Tbox.C01.exec_wake']
 SOURCES = vlib.EVENT_SOURCES + vlib.BASE_SOURCES
 FLAVOUR = 'asan'
 LIBS = ['-ldl']
@@ -21,14 +24,20 @@ SHRINK_TESTS = 60
 MAX_REPORT = 3
 TRUSTED = ['model lean/TboxModel/C01/Model.lean hand-written from common_loop_run.cpp / common_loop.cpp / engines/*/loop.cpp; the tie is the '
            'trace acceptor lean/Driver/C01.lean: sequentialised runs must match the model line by line (ids, cancel results, executions + thread), '
-           'free-running histories must satisfy the specification',
+           'free-running histories are reconstructed into model step lists (critical sections of lock_ in lock order, the poll sample placed where the '
+           'observed pass forces it) and every step must be enabled; ids, cancel results, eventfd writes and executed callables must agree',
            'std::recursive_mutex gives atomic critical sections; eventfd counter semantics (write adds, read zeroes, readable iff > 0); '
            'level-triggered epoll/select readiness',
            'harness interposition of epoll_wait/select (parking the loop thread), pthread_mutex_lock/unlock and read/write (delay injection)',
            'C++ data-race freedom is NOT exhibited by the Lean model: ThreadSanitizer on the free-running stress (thorough tier) searches for races; '
            'the model proves the lock-discipline lemma only']
-ASSUMPTIONS = ['callables do not throw', 'RunId does not wrap around (2^63 submissions)', 'eventfd()/epoll_create succeed',
-               'runNext/cancel/exitLoop are called from the loop thread (or the owning thread while the loop is not running), as loop.h demands',
+ASSUMPTIONS = ['RunId does not wrap around (< 2^63 submissions per entry point): hypothesis NoWrap of the id theorems', 'eventfd()/epoll_create succeed',
+               'runNext/cancel are called from the loop thread (or the owning thread while the loop is not running), as loop.h demands',
+               'exitLoop()/exitLoop(wait) likewise: loop.h does not say so, but the code writes keep_running_ and the timer heap without lock_ and '
+               'does not wake the poll, so a foreign thread has to go through runInLoop([]{exitLoop();}) (which the stress mode does); '
+               'a direct cross-thread exitLoop() is outside the model',
+               'no nested runLoop() from inside a callable (out of scope)',
+               'exceptions of callables are caught by the loop (patches/C01-02); exceptions of timer/fd callbacks are not part of this property',
                'no other thread uses the loop object while it is being destroyed',
                'fair scheduling: a runnable loop thread eventually runs (needed to read the wake-up invariant as liveness)']
 RULE = ('(i) sequentialised schedules: scripts of callables (submit in-loop/next, cancel, exit, cross-thread submission in the middle of a batch) x '
@@ -46,8 +55,10 @@ def body(rng, ntmpl, k, allow_cross=True):
         hi = rng.randrange(k + 1, ntmpl) if k + 1 < ntmpl else None
         if r < 0.30 and hi is not None: acts.append('i%d' % hi)
         elif r < 0.55 and hi is not None: acts.append('n%d' % hi)
-        elif r < 0.75: acts.append('c%d' % rng.choice([2, 4, 6, 8, 10, 12, 3, 5, 7, 9, 11, 0, 1, 14, 16, 13]))
-        elif r < 0.85: acts.append('x')
+        elif r < 0.72: acts.append('c%d' % rng.choice([2, 4, 6, 8, 10, 12, 3, 5, 7, 9, 11, 0, 1, 14, 16, 13]))
+        elif r < 0.80: acts.append('x')
+        elif r < 0.84: acts.append('t')
+        elif r < 0.88: acts.append('!')
         elif allow_cross and hi is not None: acts.append('w%d.%d' % (rng.randrange(4), hi))
     return ','.join(acts) or '-'
 
@@ -58,6 +69,7 @@ def expansion(progs):
     for k in sorted(progs, reverse=True):
         n = 1
         for a in progs[k].split(','):
+            if a in ('x', 't', '!', '-'): continue
             if a[0] in 'in': n += size.get(int(a[1:]), 1) if int(a[1:]) != k else 100
             elif a[0] == 'w': n += size.get(int(a.split('.')[1]), 1)
         size[k] = n
@@ -90,7 +102,9 @@ def gen_case(rng, nops):
             if r < 0.30: ops.append('sub %d %d' % (rng.randrange(4), k)); budget -= size[k]
             elif r < 0.40: ops.append('next %d %d' % (rng.randrange(4), k)); budget -= size[k]
             elif r < 0.47: ops.append('cancel %d %d' % (rng.randrange(4), rng.choice([0, 2, 3, 4, 5, 6, 7, 8])))
-            elif r < 0.50: ops.append('exit %d' % rng.randrange(4))
+            elif r < 0.49: ops.append('exit %d' % rng.randrange(4))
+            elif r < 0.51: ops.append('exitt %d' % rng.randrange(4))
+            elif r < 0.53: ops.append('tick')
             elif r < 0.90:
                 lt = rng.randrange(4)
                 ops.append('run %s %d' % (rng.choice(['forever', 'forever', 'forever', 'once']), lt)); running = True
@@ -99,7 +113,8 @@ def gen_case(rng, nops):
         else:
             if r < 0.40:
                 t = rng.choice([x for x in range(4) if x != lt]); ops.append('sub %d %d' % (t, k)); budget -= size[k]
-            elif r < 0.85: ops.append('pass')
+            elif r < 0.80: ops.append('pass')
+            elif r < 0.86: ops.append('tick')
             elif r < 0.95: ops.append('stop'); running = False
             else: ops.append(rng.choice(['next 0 0', 'run forever 1', 'sub %d 0' % lt, 'destroy 0']))   # invalid while running
         if ops[-1] == 'pass' and running and rng.random() < 0.15:
@@ -124,6 +139,12 @@ DIRECTED = [
     # 100-generation bound: a self-reposting task is still pending after exit and after destruction
     ['prog 0 n0', 'next 0 0', 'run once 0', 'pass', 'run once 0', 'pass'],
     ['engine select', 'prog 0 i0', 'sub 1 0', 'destroy 2', 'sub 1 0', 'run once 1', 'pass'],
+    # a callable throws in a pass batch / in the exit drain / in the destructor drain: the rest of the batch still runs
+    ['prog 0 -', 'prog 1 !,i0', 'prog 3 i0,i1,i0,x', 'sub 1 1', 'sub 2 0', 'next 0 1', 'next 0 0', 'run forever 0', 'pass', 'sub 1 3', 'pass'],
+    ['engine select', 'prog 0 -', 'prog 1 !', 'prog 3 n1,n0,i1,i0', 'sub 1 3', 'run once 0', 'pass', 'sub 1 1', 'sub 1 0', 'next 0 1', 'next 0 0'],
+    # exit timer: armed from a callable, fires after the clock moved; re-armed while idle (the loop posts a task to itself); dropped by exitLoop()
+    ['prog 0 -', 'prog 1 t', 'sub 1 1', 'run forever 0', 'pass', 'pass', 'tick', 'sub 2 0', 'pass', 'exitt 0', 'exitt 0', 'sub 1 0', 'run forever 0', 'pass', 'tick', 'pass'],
+    ['prog 0 -', 'prog 1 t,x', 'prog 2 t,n0,t', 'sub 1 1', 'run forever 2', 'pass', 'sub 1 2', 'run forever 2', 'pass', 'tick', 'pass'],
     # malformed stream
     ['engine kqueue', 'prog 99 -', 'prog 1 q', 'sub 9 0', 'pass', 'stop', 'run sometimes 0', 'cancel 0 x', 'frob', 'engine epoll', 'stress epoll 0 1 1 1 0'],
 ]
@@ -155,7 +176,7 @@ def gen(rng, tier):
 
 def nontrivial(ops, model_lines):
     tags = ' '.join(l for l in model_lines if l.startswith('B '))
-    keys = ('rerun', 'submit-while-exiting', 'submit-between-runs', 'submit-blocked-by-drain', 'cancel-batch-hit', 'cancel-queue-hit',
+    keys = ('throw', 'exit-timer-fired', 'exit-timer-dropped', 'rerun', 'submit-while-exiting', 'submit-between-runs', 'submit-blocked-by-drain', 'cancel-batch-hit', 'cancel-queue-hit',
             'cancel-idle-hit', 'exec-in-exit-drain', 'exec-in-destructor', 'cross-mid-batch', 'stress', 'start-with-queued-work')
     return 1 if any(k in tags for k in keys) else None
 
@@ -163,8 +184,9 @@ def nontrivial(ops, model_lines):
 def fingerprint(ops, d):
     import hashlib
     what = (d[1] if d else '')
-    kind = 'lost-wakeup' if ('LOST WAKE-UP' in what or 'impl=[P parked] model=[E' in what) else \
-           'crash' if what.startswith('CRASH') else 'trace'
+    kind = 'lost-wakeup' if ('LOST WAKE-UP' in what or 'lost wake-up' in what or 'impl=[P parked] model=[E' in what) else \
+           'throw' if ('CRASH' in what and 'exception' in what) else \
+           'crash' if 'CRASH' in what else 'history' if 'history event' in what else 'trace'
     h = hashlib.sha1((' '.join(o.split()[0] for o in ops) + kind).encode()).hexdigest()[:10]
     return kind + '-' + h
 
@@ -228,7 +250,7 @@ LEVEL_TEXT = ('Lean 4 theorems over a small-step model of the loop\'s deferred-t
               'and destruction an inductive invariant gives exactly-once, cancel soundness, FIFO per entry point, loop-thread execution, '
               'no lost wake-up (running and queue non-empty implies eventfd counter > 0) and drain-on-exit with the 100-generation bound; '
               'tied to the real epoll/select loop on every run by sequentialised schedules compared line by line and by free-running stress '
-              'histories validated against the specification')
+              'histories replayed step by step on the interleaving model')
 LEVEL_NOTE = ('partial for "free of data races": the Lean model cannot exhibit a C++ data race; proved instead is the lock-discipline lemma '
               '(inLoopQ/hasCommit/efd/id allocator are touched only by steps holding lock_, nextQ/tmpQ/batches only by loop-thread steps); '
               'ThreadSanitizer on the stress mode (thorough) is a supporting search. "No lost wake-up" is proved as the invariant '
